@@ -9,6 +9,7 @@ import (
 	schedv1alpha2 "github.com/NVIDIA/KAI-scheduler/pkg/apis/scheduling/v1alpha2"
 
 	"verif/mc/clustermc"
+	"verif/mc/engine"
 	"verif/mc/oracle"
 	"verif/mc/schedrun"
 	"verif/mc/world"
@@ -103,8 +104,17 @@ func handoffScenarios(tier string) []clustermc.Scenario {
 	return out
 }
 
+// C12BinderHalf is set by package checks/c12binder (kept separate: it needs the binder wiring).
+var C12BinderHalf func(tier string) (map[string]any, []engine.Violation)
+
 func C12() *clustermc.Family {
 	return &clustermc.Family{
+		Extra: func(tier string) (map[string]any, []engine.Violation) {
+			if C12BinderHalf == nil {
+				return map[string]any{"binder_half": "not linked into this binary"}, nil
+			}
+			return C12BinderHalf(tier)
+		},
 		Property:  "C12",
 		Scenarios: handoffScenarios,
 		Depth: func(tier string) int {
